@@ -128,6 +128,7 @@ def run(ctx):
     sets = W.make_sets(ctx, ctx.pick(2, 24), "c01")
     for item in sets:
         run_set(ctx, item, ctx.pick(14, 80))
+    run_set(ctx, W.big_union_set(ctx), ctx.pick(14, 80))
     ctx.sample({"type": "cov.Odd.1.0", "value_kind": "rand (storage range)", "bases": "c_any, c_little/big, cpp14, cpp17/20/pmr, py", "oracle": "refmodel.encode + pydsdl.serialize cross-check"})
     ctx.require("ser_exact", 1000)
     ctx.require("invalid_refused", 20)
